@@ -111,3 +111,20 @@ pub fn permutation(seed: u64, n: usize) -> Vec<usize> {
     idx.sort_by_key(|i| splitmix(seed ^ (*i as u64).wrapping_mul(0xA24B_AED4_963E_E407)));
     idx
 }
+
+/// nesting depth of a diagram: 0 for constants and literals, else 1 + the deepest among its primes and subs
+pub fn sdd_depth(p: SddPtr) -> usize {
+    fn go(p: SddPtr, memo: &mut std::collections::HashMap<crate::walk::SddKey, usize>) -> usize {
+        let Some(k) = crate::walk::sdd_key(p) else { return 0 };
+        if let Some(d) = memo.get(&k) {
+            return *d;
+        }
+        let mut d = 0;
+        for (pr, su) in crate::walk::sdd_elements(p) {
+            d = d.max(1 + go(pr, memo)).max(1 + go(su, memo));
+        }
+        memo.insert(k, d);
+        d
+    }
+    go(p, &mut std::collections::HashMap::new())
+}
